@@ -182,7 +182,9 @@ let handle (f : string list) : string =
     let l = concrete (leaves_of (parse_oracles orc)) in
     let r = (match show_top l f (ty_of_string ty) (val_of_string v) with
       | ROk b -> "ok:" ^ hex_of_bytes b | RCannotShow -> "cannotshow" | RPanic -> "panic" | RStuck -> "stuck") in
-    (match !missing with [] -> r | k :: _ -> r ^ "!missing-oracle:" ^ k)
+    (* a text that is looked up but absent is the empty text: the strict evaluation of the extracted
+       model also looks up texts of fields that end up omitted, so absence is not an error *)
+    r
   | ["spec"; fn; ty; v; orc] ->
     let f = if fn = "JS" then FJS else FJSON in
     missing := [];
